@@ -1,7 +1,7 @@
 (* C05 - Closures keep the local values they were created with.              *)
 (* Statements only; the proofs are in Proofs/Closures.v and Proofs/EvalRel.v. *)
 From TL Require Import Base.Base Model.Reader Model.Printer Model.Store Model.Eval Model.Init.
-From TL Require Import Proofs.Closures Proofs.Capture Proofs.EvalRel.
+From TL Require Import Proofs.Closures Proofs.Capture Proofs.CaptureGen Proofs.EvalRel.
 Local Open Scope list_scope.
 
 (* The capture walk of `lambda`, one symbol occurrence at a time (the walk   *)
@@ -76,6 +76,41 @@ Theorem C05_capturable_gets_one_cell : forall s excl caps n,
   exists id, subst caps (Sym n) = Cell n id (key_of_name n).
 Proof. exact capturable_replaced_by_its_cell. Qed.
 
+(* ANY body - in particular one that already contains cells of an enclosing      *)
+(* closure (the body of a lambda inside a lambda has been walked once by the     *)
+(* outer capture) or uninterned symbols.  `ok s body`: the serials in the body    *)
+(* have been handed out in s and its cells hold values.  The walk succeeds and    *)
+(* returns `gsubst`: every symbol occurrence x (interned, uninterned or cell)     *)
+(* that is locally bound at creation (a cell always is) and not a parameter is    *)
+(* replaced by the cell the capture list holds for the first occurrence eq to     *)
+(* it; everything else is unchanged; each of those cells is NEW (its serial was   *)
+(* not handed out in s), is rooted where the occurrence it was made from is, and  *)
+(* no binding that existed in s is written (`agree`).                             *)
+Theorem C05_whole_body_any : forall s excl body,
+  ok s body ->
+  exists caps s2,
+    capture excl [] body s = (Ok (gsubst s excl caps body, caps), s2) /\
+    agree s s2 /\ gcaps_ok s excl caps /\ gclosed s excl caps body.
+Proof. exact capture_any_body. Qed.
+(* nested closures: a cell of the enclosing closure is captured AGAIN - the inner *)
+(* closure gets a new cell of its own (initialised from the outer cell by          *)
+(* C05_captures_current_value), it does not share the outer one                    *)
+Theorem C05_outer_cell_recaptured : forall s excl caps n i r,
+  gcaps_ok s excl caps -> gclosed s excl caps (Cell n i r) -> in_excl excl (Cell n i r) = false ->
+  exists from nm id,
+    gsubst s excl caps (Cell n i r) = Cell nm id (cell_root from) /\
+    In (from, Cell nm id (cell_root from)) caps /\ sym_eq (Cell n i r) from = true /\
+    (next_id s <= id)%positive.
+Proof. exact outer_cell_recaptured. Qed.
+Theorem C05_not_capturable_untouched_any : forall s excl caps x,
+  symbolp x = true -> capt s excl x = false -> gsubst s excl caps x = x.
+Proof. exact not_capt_untouched. Qed.
+Theorem C05_general_walk_extends_text_walk : forall s excl caps x,
+  only_syms x = true -> caps_ok s excl caps -> gsubst s excl caps x = subst caps x.
+Proof. exact gsubst_on_text_bodies. Qed.
+
+Print Assumptions C05_whole_body_any. Print Assumptions C05_outer_cell_recaptured.
+Print Assumptions C05_not_capturable_untouched_any. Print Assumptions C05_general_walk_extends_text_walk.
 Print Assumptions C05_whole_body. Print Assumptions C05_not_capturable_untouched.
 Print Assumptions C05_capturable_gets_one_cell.
 Print Assumptions C05_free_variable_untouched. Print Assumptions C05_parameter_untouched.
@@ -106,6 +141,27 @@ Example C05_ex3 :
   ev0 "(setq f (let ((x 1)) (lambda () `(a (b ,x) . ,x)))) (let ((x 2)) (funcall f))"
   = ev0 "'(a (b 1) . 1)".
 Proof. vm_compute. reflexivity. Qed.
+
+(* nested closures: the inner closure reads the value the outer cell had when the *)
+(* inner one was created; its own assignments go to its own cell                   *)
+Example C05_ex4 :
+  ev0 "(setq mk (let ((x 1)) (lambda () (lambda () x)))) (setq x 100) (let ((x 7)) (funcall (funcall mk)))"
+  = ev0 "1".
+Proof. vm_compute. reflexivity. Qed.
+Example C05_ex5 :
+  ev0 "(setq mk (let ((n 0)) (lambda () (setq n (+ n 10)) (lambda () (setq n (+ n 1)) n)))) (setq a (funcall mk)) (setq b (funcall mk)) (list (funcall a) (funcall a) (funcall b) (funcall a))"
+  = ev0 "'(11 12 21 13)".
+Proof. vm_compute. reflexivity. Qed.
+(* the hypothesis of C05_whole_body_any holds of the body of a closure made by a  *)
+(* run: it contains a cell, with a serial below the next one and a value           *)
+Definition st_nested := snd (eval_string F0 80 (s2t "(setq mk (let ((x 1)) (lambda (p) (lambda () (list x p)))))") (init_state [] None)).
+Definition body_nested : sx :=
+  match bitems (sget st_nested (key_of_name (s2t "mk"))) with
+  | Lam _ b :: _ => b
+  | _ => Nil
+  end.
+Example C05_ok_nonvacuous : ok st_nested body_nested /\ body_nested <> Nil.
+Proof. vm_compute. repeat split; try reflexivity; discriminate. Qed.
 
 Check C05_captures_current_value : forall excl caps x s k v rest n,
   symbolp x = true -> key_of x = Some k -> keywordp x = false -> sym_name x = Some n ->
